@@ -323,7 +323,14 @@ where
     /// substitution is not possible, the constraint fails and `None` is returned.
     fn process_extension_fd(mut self, extension: &SMap<U, E>) -> SResult<U, E> {
         let dstore = self.get_dstore();
-        for (x, v) in extension.iter() {
+        // The new bindings are processed in the order of their variable ids, not in the
+        // randomised iteration order of the map.
+        let mut bindings = extension.iter().collect::<Vec<_>>();
+        bindings.sort_by_key(|(x, _)| match x.as_ref() {
+            LTermInner::Var(id, _) => Some(*id),
+            _ => None,
+        });
+        for (x, v) in bindings {
             match dstore.get(x) {
                 Some(domain) => {
                     self = self
